@@ -303,14 +303,18 @@ Ltac solve_send Hstep Hp Hobj :=
   [left; split; [done|]; symmetry; eapply refine_send; [exact Hp|exact Hk|exact Hb|rewrite Hobj; cbn; repeat (match goal with H : _ = _ |- _ => rewrite H end); done]
   |unfold labels; cbn; by rewrite app_nil_r].
 
-Theorem refines_sax01 c self c' : Inv c -> step Async D F c (Run self) = SStep c' ->
+(* only the acting process needs its local conditions *)
+Theorem refines_sax01_at c self c' :
+  (forall p, procs c !! self = Some p -> step_ok c self p) -> step Async D F c (Run self) = SStep c' ->
   exists ls, sax_step01 (α c) ls (α c') /\ labels c' = labels c ++ ls.
 Proof.
-  intros HInv Hstep. apply step_run_async_inv in Hstep as (p & Hp & Hstep).
-  destruct (HInv self p Hp) as ((n & a & Hprov & Hn) & Hlin & Hfresh & Hrecv).
+  intros HInv0 Hstep. assert (HInv : forall self0 p, self0 = self -> procs c !! self0 = Some p -> step_ok c self0 p)
+    by (intros ? ? -> ?; auto).
+  apply step_run_async_inv in Hstep as (p & Hp & Hstep).
+  destruct (HInv self p eq_refl Hp) as ((n & a & Hprov & Hn) & Hlin & Hfresh & Hrecv).
   destruct p as [provs body next]. cbn in Hprov, Hlin, Hfresh. subst provs.
   assert (proc_obj (Proc [n] body next) = [obj a body]) as Hobj by (unfold proc_obj; cbn; by rewrite Hn).
-  pose proof (HInv self _ Hp) as Hok.
+  pose proof (HInv self _ eq_refl Hp) as Hok.
   (* common start of the receive cases: the message, the effect, the labels *)
   assert (forall k, action_of Async D (Proc [n] body next) = ARecv k ->
     exists st m e, chans c !! k = Some st /\ ch_buf st = Some m /\
@@ -486,6 +490,10 @@ Proof.
     eapply refine_internal; [done|]. rewrite Hobj. unfold proc_obj, set_body. cbn. rewrite Hn.
     apply s_print.
 Qed.
+
+Theorem refines_sax01 c self c' : Inv c -> step Async D F c (Run self) = SStep c' ->
+  exists ls, sax_step01 (α c) ls (α c') /\ labels c' = labels c ++ ls.
+Proof. intros HI. apply refines_sax01_at. intros p Hp. by apply HI. Qed.
 
 Corollary refines_sax c self c' : Inv c -> step Async D F c (Run self) = SStep c' ->
   exists ls, sax_steps F false (α c) ls (α c') /\ labels c' = labels c ++ ls.
